@@ -41,12 +41,14 @@ CHECKS['C12'] = {
 CHECKS['C18'] = {
     'category': 'other',
     'text': 'Invariant proof by induction over mutator histories for the 13 univariate distributions: every setter re-establishes each '
-            'derived (cached) field with the constructor\'s initialiser, validates with the constructor\'s guards, and update() routes every '
-            'parameter through these writers (or through new) without validating against a stale sibling; structs are Copy with private '
+            'derived (cached) field with the constructor\'s initialiser, validates with the constructor\'s guards, and update() leaves every field '
+            'as new() would store it for the same values under new()\'s guards (no validation against a stale sibling); mutators are abstracted to '
+            'object-state transformers (field -> final term, guards of the normal return) over field stores, whole-object stores, constructor '
+            'calls and composed setters, read through straight-line helpers; structs are Copy with private '
             'fields, the crate has no statics, and sample() reaches no nondeterminism source other than alea\'s seeded generators.',
     'design_ref': 'DESIGN.md 4.18, 3 (E-GRD field invariants, cache-coherent, setter-agree, update-order)',
     'note': 'Trusted: alea 0.2.2 reproducibility given its seed. Value-level validity of accepted parameters (e.g. sigma = 0) is not decided.',
-    'technique': 'typestate / field-invariant analysis over MIR (writers, dominating guards, structural comparison of initialisers) + call-graph allow-list',
+    'technique': 'typestate / field-invariant analysis over MIR (object-state transformers of mutators compared with the constructor: final field terms and return guards) + call-graph allow-list',
 }
 
 CHECKS['C19'] = {
@@ -191,11 +193,11 @@ CHECKS['C13'] = {
     'category': 'other',
     'text': 'Dependency/wiring clauses decided on MIR: the lag reaches acovf/acf only through abs() (a proof that both are even); acovf : X^2, acf : 1; '
             'acf is the lag-k over the lag-0 form of the same centred products (acf(.,0) = 1 structurally); differencing is out[i] = v[i+1] - v[i]; '
-            'AR::fit sets intercept = mean(data) and coeffs = invert_matrix(toeplitz(r[..p])).r[1..=p] over acf of the centred series, reversed exactly '
-            'once; forecasts use the raw data only as (value - intercept) and add the intercept back (necessary and sufficient for shift equivariance). '
+            'AR::fit sets intercept = mean(data) and coeffs = invert_matrix(toeplitz(r[..p])).r[1..=p] over acf of the (possibly shifted) series for lags 0..=p '
+            '(slices and sizes in normal form over the order p), reversed an odd number of times; forecasts use the raw data only as (value - intercept) and add the intercept back (necessary and sufficient for shift equivariance). '
             '|acf| <= 1 and convergence of forecasts are numerical and not decided.',
     'design_ref': 'DESIGN.md 4.13, 3 (E-WIRE dependency signatures, E-SYM, orientation)',
-    'note': 'The reversal-parity device counts reverse() calls on the coefficient field between fit and the forecast step.',
+    'note': 'The reversal-parity device counts rev() adapters and reverse() calls between the matmul result and the stored coefficient field. Autocorrelations not obtained from acf() are not decided.',
     'technique': 'dependency analysis (uses only through abs) + closed-form extraction with shift-weight rule + term-shape matching of the Yule-Walker pipeline',
 }
 
